@@ -1356,6 +1356,46 @@ func runX14(p *an.Prog, r *an.Result) {
 				r.OK(name, construct, c.Pos(), "the value's type implements / is assignable to the target: nothing is lost")
 				return
 			}
+			// (a') a Go string converted to a type that a dominating test found to be of kind String: a named
+			// string type holds every string
+			if b, isB := c.Call.Args[0].Type().Underlying().(*types.Basic); isB || true {
+				_ = b
+				fromString := false
+				for _, o := range an.Origins(c.Call.Args[0], an.StepValue) {
+					if vc := an.CallOf(o); vc != nil && an.CallName(vc) == "reflect.ValueOf" {
+						if mi, ok := vc.Args[0].(*ssa.MakeInterface); ok {
+							if bt, ok := mi.X.Type().Underlying().(*types.Basic); ok && bt.Kind() == types.String {
+								fromString = true
+							}
+						}
+					}
+				}
+				if fromString && an.AllPathsGuarded(c.Block(), func(cond ssa.Value, taken bool) bool {
+					bo, ok := cond.(*ssa.BinOp)
+					if !ok || !(bo.Op == token.EQL && taken || bo.Op == token.NEQ && !taken) {
+						return false
+					}
+					for _, pair := range [][2]ssa.Value{{bo.X, bo.Y}, {bo.Y, bo.X}} {
+						k, isC := an.ConstInt(pair[1])
+						if !isC || k != 24 {
+							continue
+						}
+						if kc := an.CallOf(pair[0]); kc != nil && strings.HasSuffix(an.CallName(kc), ").Kind") {
+							recv := kc.Value
+							if !kc.IsInvoke() && len(kc.Args) > 0 {
+								recv = kc.Args[0]
+							}
+							if sameValue(recv, typ) || eqVal(recv, typ) || sameTypeExpr(recv, typ) {
+								return true
+							}
+						}
+					}
+					return false
+				}) {
+					r.OK(name, construct, c.Pos(), "a string converted to a type of kind String: nothing is lost")
+					return
+				}
+			}
 			// (b) converted back and compared
 			rt := false
 			if c.Referrers() != nil {
@@ -2070,4 +2110,26 @@ func funcValueCandidates(p *an.Prog, fn *ssa.Function, c *ssa.CallCommon) []*ssa
 		out = append(out, f)
 	}
 	return out
+}
+
+// sameTypeExpr: two reflect.Type expressions built the same way from the same value: rt.Type().Key() twice.
+func sameTypeExpr(a, b ssa.Value) bool {
+	if a == b || sameValue(a, b) {
+		return true
+	}
+	ca, cb := an.CallOf(a), an.CallOf(b)
+	if ca == nil || cb == nil || an.CallName(ca) != an.CallName(cb) {
+		return false
+	}
+	ra, rb := ca.Value, cb.Value
+	if !ca.IsInvoke() {
+		if len(ca.Args) == 0 || len(cb.Args) == 0 {
+			return false
+		}
+		ra, rb = ca.Args[0], cb.Args[0]
+	}
+	if ra == rb || sameValue(ra, rb) || sameRV(ra, rb) {
+		return true
+	}
+	return sameTypeExpr(ra, rb)
 }
